@@ -187,7 +187,7 @@ def build():
                   E('state', 'r.entities.alloc.abs() == old(self).alloc.abs().create_deferred() && r.entities.alloc.wf() && *final(self) == *final(r.entities)', 'C01 C02 C17'),
                   E('owns', 'r.entities.alloc.abs().current(r.entity)', 'C02')])
     # EntityResBuilder::build(mut self) is outside Verus's subset (`mut self` receiver): not under contract
-    u.fn(F, ["impl<'a> Drop for EntityResBuilder<'a>", 'fn drop'], props='C02',
+    u.fn(F, ["impl<'a> Drop for EntityResBuilder<'a>", 'fn drop'], props='C02 C05',
          impl_header="impl<'a> EntityResBuilder<'a>", key='EntityResBuilder::drop',
          requires=[E('wf', 'old(self).entities.alloc.wf()'), E('headroom', 'old(self).entities.alloc.headroom_n(2)'),
                    E('own', '!old(self).built ==> old(self).entities.alloc.abs().current(old(self).entity)')],
